@@ -453,6 +453,13 @@ def run(prog: Program, res: Result, tier: str) -> None:
                         and all(w in " ".join(vals)
                                 for w in re.findall(r"\w+", pt)[1:]):
                     continue
+                # any(d.values()) / any(d) over the mapping that is spread
+                # into the call: "some role was restored"
+                m_ = re.fullmatch(r"any\((\w+)(\.values\(\))?\)", pt)
+                if m_ and any(isinstance(k, ast.keyword) and k.arg is None
+                              and norm(k.value) == m_.group(1)
+                              for k in c.keywords):
+                    continue
                 odd.append(pt)
         inst = f"reader: {norm(c.func)}(...) attaches every restored descriptor"
         if odd:
@@ -461,7 +468,7 @@ def run(prog: Program, res: Result, tier: str) -> None:
                     "stored descriptor that fails it is dropped silently "
                     "(e.g. every descriptor with a None placeholder when its "
                     "atoms are compared with the graph's atoms)",
-                    instance=inst)
+                    instance=inst, context=["<local>"])
         else:
             res.ok("J-PAYLOAD", inst, r.loc(c))
     # set_*_stereo_change REPLACES the entry: one call per entry, all roles
